@@ -118,7 +118,7 @@ _BIG_MAX = 260 if _TIER == "thorough" else 140
 @st.composite
 def s_big(draw):
     def one():
-        return {"family": draw(st.sampled_from(["path", "cycle", "star", "caterpillar", "random_tree", "tree_plus"])),
+        return {"family": draw(st.sampled_from(["path", "cycle", "star", "caterpillar", "random_tree", "tree_plus", "hub_clique", "star"])),
                 "n": draw(st.one_of(st.sampled_from(_BIG_EDGE), st.sampled_from(list(range(60, _BIG_MAX + 1))))),
                 "seed": draw(st.integers(0, 2 ** 31))}
     return {"g": one(), "h": one(), "seed": draw(st.integers(0, 2 ** 32 - 1)), "order": None, "order_form": "array", "same": draw(st.integers(0, 4)) == 0}
@@ -133,6 +133,10 @@ def expand_big(sp):
         edges = [[i, (i + 1) % n] for i in range(n)]
     elif fam == "star":
         edges = [[0, i] for i in range(1, n)]
+    elif fam == "hub_clique":
+        # a hub with pendant vertices plus a clique hanging off the hub: diameter 2, many vertices at the same distance
+        k = max(3, n // 3)
+        edges = [[0, v] for v in range(1, n - k)] + [[0, n - k]] + [[a, b] for a in range(n - k, n) for b in range(a + 1, n)]
     elif fam == "caterpillar":
         spine = max(2, n // 3)
         edges = [[i, i + 1] for i in range(spine - 1)] + [[rng.randrange(spine), v] for v in range(spine, n)]
@@ -175,6 +179,12 @@ def edge_size_cases():
     smallest sufficient signed integer type): diameters 125..129 (and 254..257 in the thorough tier)"""
     ns = [126, 127, 128, 129, 130] + ([255, 256, 257, 258] if _TIER == "thorough" else [])
     fams = ["path", "caterpillar"] + (["cycle", "random_tree"] if _TIER == "thorough" else [])
+    # diameter-2 graphs with more than 127 vertices at one distance from some vertex (counts, not distances, near the int8 limit)
+    for n in (127, 128, 129, 130, 151):
+        for pair in ((("star", n), ("hub_clique", n)), (("hub_clique", n), ("star", 20)), (("star", n), ("star", n))):
+            g = {"family": pair[0][0], "n": pair[0][1], "seed": 5}
+            h = {"family": pair[1][0], "n": pair[1][1], "seed": 6}
+            yield {"g": g, "h": h, "seed": n, "order": None, "order_form": "array", "same": g == h}
     for n in ns:
         for fam in fams:
             g = {"family": fam, "n": (n if fam != "cycle" else 2 * n - 2), "seed": 1}
@@ -233,7 +243,7 @@ CLAUSES = [
                 "distances): paths, cycles, stars, caterpillars, random trees (+ chords), expanded from a generated seed; no exception, 0 <= lb <= ub, "
                 "half-integrality, ub >= trivial bound, lb <= half the distortion of a greedy map, relabelled copies get lb == 0; non-trivial = >= 128 vertices"),
     Clause("edge_sizes", cases=edge_size_cases, check=check_big,
-           rule="DETERMINISTIC slice: paths and caterpillars (thorough: also cycles and random trees) with 126..130 (thorough: also 255..258) "
+           rule="DETERMINISTIC slice: stars and hub+clique graphs with 127..151 vertices (more than 127 vertices at one distance); paths and caterpillars (thorough: also cycles and random trees) with 126..130 (thorough: also 255..258) "
                 "vertices, i.e. diameters at the int8 / int16 boundaries, against a 100-path, a relabelled copy of themselves and a 5-star; "
                 "same validity predicates as big_graphs"),
     Clause("small_slice", cases=slice_cases, check=check_slice,
